@@ -683,7 +683,7 @@ func genConcRandom(r *rng.R) fw.Case {
 	var paths []leafPath
 	budget := r.Range(2, 12)
 	critP := rng.Pick(r, []int{10, 10, 9, 7})
-	tree := genTree(r, 0, r.Range(2, 4), critP, &paths, nil, &budget)
+	tree := genTreeH(r, 0, r.Range(2, 4), critP, rng.Pick(r, []int{0, 0, 3}), &paths, nil, &budget)
 	all, crit := leafIndices(tree)
 	lp := leafPaths(tree)
 	pre := sx.L()
@@ -715,6 +715,9 @@ func genConcRandom(r *rng.R) fw.Case {
 		}
 	}
 	tags := []string{"conc", "conc-random", fmt.Sprintf("conc-threads=%d", nT)}
+	if ht := hookTags(tree); ht[0] == "hooks" {
+		tags = append(tags, "conc-hooks")
+	}
 	return fw.Case{Input: concInput(tree, pre, thr, sched), Tags: tags}
 }
 
